@@ -1,8 +1,12 @@
 """C02 — every optimization phase and every fired rewrite preserves values.
 
 Theorems: Props/C02.lean (soundness of each modelled rewrite rule, any rule sequence).
-Correspondence: each fired rewrite (before, after) that is expressible in the mini-language is
-checked to be an instance the model accepts (driver family ex.*; pending the rules model).
+Correspondence (harness/export.py, driver family ru.*): the (before, after) OBJECTS of every fired
+rewrite are exported to the mini-language; when both sides export, the model must agree that the
+pair is sound (`ru.equiv` = den equal on the concrete data; a 0 is a model/implementation
+disagreement).  Evidence only (never a verdict): how many real rewrite instances are instances of a
+modelled, PROVED rule (`ru.accepts`: the model rule applied to `before` gives the shape, chunks and
+values of `after`) — `rule_instances_covered` / `rule_instances_uncovered` by real rule name.
 Search: raw / simplified / lowered / fused forms and every (before, after) pair of every fired
 rewrite are computed on the real code and compared (values, shape, dtype), incl. shared subtrees;
 fused vs unfused graphs are compared block by block.
@@ -14,7 +18,7 @@ import warnings
 
 import numpy as np
 
-from harness import classify, graphs as G, progcheck as PC, programs as P, trace as T
+from harness import classify, export as X, graphs as G, progcheck as PC, programs as P, trace as T
 
 KNOWN = ("swv-layout-drift", "take-through-broadcast", "slice-through-generic-blockwise")
 
@@ -75,6 +79,11 @@ def check_program(ctx, prog, want):
         try:
             vals[nm] = compute_expr(e)
         except Exception as ex:  # noqa: BLE001
+            if nm == "raw":
+                # the property compares the phases of a computable program; a program whose RAW form
+                # does not compute is C01's business (e.g. min/max over an empty selection)
+                ctx.notes["raw_not_computable"] = ctx.notes.get("raw_not_computable", 0) + 1
+                return
             sig = classify.classify(prog, ("exc", ex))
             ctx.fail(sig if sig in KNOWN else f"phase-raises:{nm}", {"program": prog, "phase": nm, "outcome": repr(ex)[:300]}, f"{nm} form raises when computed")
             return
@@ -120,6 +129,8 @@ def check_program(ctx, prog, want):
             ctx.fail(f"rewrite-differs:{r['rule']}", {"program": prog, "rule": r["rule"], "before": type(r["before"]).__name__, "after": type(r["after"]).__name__,
                                                       "before_shape": list(b.shape), "after_shape": list(a.shape), "before_dtype": str(b.dtype), "after_dtype": str(a.dtype)},
                      "a fired rewrite replaced a subexpression by one denoting a different array")
+    # model correspondence: export every fired rewrite; the driver is consulted once, in run()
+    X.collect(ctx, prog, recs)
 
 
 def kernel_substitution_stream(ctx):
@@ -155,6 +166,62 @@ def kernel_substitution_stream(ctx):
                 break
 
 
+class _Directed(P.ProgGen):
+    """ProgGen whose operand choice is the most recent variable: builds chains."""
+
+    last = None
+
+    def pick(self):
+        return self.last
+
+    def add(self, step, tags=()):
+        self.last = super().add(step, tags)
+        return self.last
+
+
+DIRECTED = (
+    ("getitem", "getitem"), ("unary", "getitem", "getitem"), ("getitem", "unary", "getitem"),
+    ("transpose", "getitem"), ("unary", "transpose", "getitem"), ("transpose", "rechunk"),
+    ("concatenate", "getitem"), ("concatenate", "getitem", "getitem"), ("stack", "getitem"),
+    ("expand_dims", "getitem"), ("expand_dims", "rechunk"),
+    ("reduce", "getitem"), ("unary", "reduce", "getitem"),
+    ("rechunk", "rechunk"), ("unary", "rechunk"), ("binary_new", "rechunk"), ("binary_new", "getitem"),
+    ("getitem", "rechunk"), ("rechunk", "getitem"), ("squeeze_any", "getitem"),
+)
+
+
+def rule_directed_stream(ctx):
+    """Short chains built to fire the rewrites that the Lean model covers (slice∘slice fusion, slice
+    through transpose / concatenate / stack / expand_dims / reductions / elemwise, the rechunk
+    family), so that each of them is exercised in every run: same oracle as the main stream (NumPy),
+    same per-rewrite comparison, same model correspondence."""
+    rng = ctx.rng
+    n = ctx.scale(260, 2600)
+    for i in range(n):
+        g = _Directed(rng, maxrank=3, maxdim=6, zero_axes=0.0, basic_only=True)
+        g.new_source()
+        g.last = list(g.env)[-1]
+        pat = DIRECTED[i % len(DIRECTED)]
+        ok = True
+        for kind in pat:
+            try:
+                if kind == "squeeze_any":
+                    # a keepdims reduction followed by squeeze of the reduced axis
+                    x = g.env[g.last]
+                    ax = rng.randrange(x.ndim)
+                    g.add({"op": "reduce", "fn": rng.choice(P.REDUCE), "args": [g.last], "axis": [ax], "keepdims": True, "split_every": None})
+                    g.add({"op": "squeeze", "args": [g.last], "axis": ax})
+                else:
+                    getattr(g, "g_" + kind)()
+            except P._Skip:
+                ok = False
+                break
+        if not ok or not g.prog:
+            continue
+        ctx.count(("directed", pat))
+        check_program(ctx, g.prog, g.env[g.prog[-1]["out"]])
+
+
 def run(ctx, replay=None):
     rng = ctx.rng
     ctx.rule = (
@@ -166,6 +233,7 @@ def run(ctx, replay=None):
     if replay is not None:
         prog = replay["case"]["program"]
         check_program(ctx, prog, P.run_np(prog)[prog[-1]["out"]])
+        X.flush(ctx)
         return
     PC.probe_known(ctx, KNOWN)
     N = ctx.scale(400, 4000)
@@ -176,5 +244,14 @@ def run(ctx, replay=None):
         if i < 3:
             ctx.sample({"program": prog})
     kernel_substitution_stream(ctx)
+    rule_directed_stream(ctx)
     rules = sorted({k[1] for k in ctx.distinct if k and k[0] == "rewrite"})
     ctx.extra["rules_fired"] = rules
+    # model correspondence for all collected rewrites (one driver batch)
+    X.flush(ctx)
+    ctx.assumptions.append(
+        "model correspondence covers the rewrites whose two sides export to the mini-language (FromArray over program "
+        "sources, Elemwise over programs.UNARY/BINARY, basic slices, transpose, rechunk, concatenate/stack, expand_dims, "
+        "squeeze, broadcast_to, sum/max/min incl. lowered PartialReduce, sequential cumsum); the others are checked by "
+        "the computed before/after comparison only"
+    )
